@@ -376,6 +376,7 @@ def run(rep, tier):
     # ---- R9: loops poll fresh words, results agree with what was done
     r9_rules(rep, F, get)
     r9b_rules(rep, F, get)
+    r9c_rules(rep)
 
     # ---- R10: the callback list stays a consistent doubly-linked list
     r10_rules(rep, F, get)
@@ -750,6 +751,40 @@ def r9b_rules(rep, F, get):
                     "to finish executing - it never runs, the destructor never returns")
         else:
             rep.ok("C14.R9", rt, "return %s agrees with the unlinking" % v.get("v"))
+
+
+def r9c_rules(rep):
+    """C14.R9, continued: the stop_callback object itself.  add_callback refuses (returns false) when stop was already requested (the callback has then
+    run inline and is marked finished) and when no stop can ever be requested (no source left: nothing ran, nothing is marked).  The destructor's
+    remove_callback waits for 'finished' unless it runs on the signalling thread - so it may only be called for a callback that was registered."""
+    from .common import driver as _drv
+    D = facts(rep, _drv("c14_stop_token.cpp"), [r"^pika::stop_callback::(stop_callback|~stop_callback)"])
+    ctors = [f for f in D.fns if not f.pattern and f.parent == -1 and f.kind == "ctor" and "stop_callback" in f.qname]
+    dtors = [f for f in D.fns if not f.pattern and f.parent == -1 and f.kind == "dtor" and "stop_callback" in f.qname]
+    if len(ctors) < 2 or not dtors:
+        raise AnalysisBroken("stop_callback constructors / destructor not instantiated (%d, %d)" % (len(ctors), len(dtors)))
+    for fn in ctors:
+        ac = [(b, i, e) for b, i, e in fn.all_events() if e.get("k") == "call" and callee_short(e) == "add_callback"]
+        if not ac:
+            rep.bad("C14.R9", fn, fn.loc, "callback-not-registered", "the stop_callback constructor does not register the callback with the stop state")
+            continue
+        ff = FactFlow(fn)
+        # on the edge where add_callback failed the state reference is given up (reset / nullptr), or the destructor tests a 'registered' flag
+        drops = [(b, i, e) for b, i, e in fn.all_events() if (e.get("k") == "call" and callee_short(e) == "reset" and P(e.get("recv")) == "this->state_") or
+                 (e.get("k") == "call" and e.get("op") == "=" and P(e.get("recv")) == "this->state_") or
+                 (e.get("k") == "write" and re.match(r"^this->\w*(registered|added)\w*$", P(e["lhs"])))]
+        good = False
+        for b, i, e in drops:
+            fb = ff.before.get((b, i)) or frozenset()
+            if any("add_callback(" in a for a, t in fb):
+                good = True
+        flagged_dtor = any(blk.cond is not None and re.search(r"registered|added", T(blk.cond)) for d_ in dtors for blk in d_.blocks.values())
+        if good or flagged_dtor:
+            rep.ok("C14.R9", fn, "a refused registration is remembered: the destructor does not wait for a callback that was never registered")
+        else:
+            rep.bad("C14.R9", fn, loc_of(ac[0][2]), "unregistered-callback-awaited", "the stop_callback constructor ignores the result of add_callback and keeps the state: when the "
+                    "registration was refused because no stop_source is left (stop not requested) the callback neither ran nor is it marked finished, and the destructor's "
+                    "remove_callback - on any thread but the signalling one - waits for callback_finished_executing_ for ever")
 
 
 def r10_rules(rep, F, get):
